@@ -449,6 +449,14 @@ def handlers(emit, repo):
                     m, r, lo = rg.gen_rnd_board(c["seed"], c["L"], c["W"], c["lt"] / 1e6, c["maxr"], c["fd"])
                     ev["board"] = {"L": c["L"], "W": c["W"], "moves": m, "rewards": r, "loose": lo, "rden": 1}
                 else:
+                    if job.get("other_first"):
+                        # history: ANOTHER board of the same shape (rows reversed, every tile's looseness
+                        # flipped, rewards + 1, other probabilities) is written to the same path first;
+                        # the file must afterwards describe the second board only
+                        rg.write_robots(path, b["L"], b["W"], [list(r) for r in reversed(b["moves"])],
+                                        [[v + 1 for v in r] for r in reversed(b["rewards"])],
+                                        [[1 - v for v in r] for r in b["loose"]],
+                                        pr["rb"] / 1e6, pr["lb"] / 1e6, pr["tb"] / 1e6)
                     rg.write_robots(path, b["L"], b["W"], b["moves"], b["rewards"], b["loose"],
                                     pr["tb"] / 1e6, pr["rb"] / 1e6, pr["lb"] / 1e6)
                     if job.get("twice"):     # the same board objects written once more (a sweep over one board)
